@@ -19,28 +19,46 @@ Record spstate (A : Type) := mkSp {
   sp_rows    : list (option (list A));     (* attach order; None = separator *)
   sp_header  : option (list A);            (* the current header *)
   sp_hsizes  : list nat;                   (* size of every header so far *)
-  sp_handles : list (nat * shandle A)      (* the program's row variables *)
+  sp_handles : list (nat * shandle A);     (* the program's row variables *)
+  sp_else    : list (nat * (nat * nat))    (* rows (1-based position) that ANOTHER table's AddRow has taken:
+                                              their position there, their size when taken.  Empty in every
+                                              history the property quantifies over (wf_hist). *)
 }.
 Arguments mkSp {A}.
 Arguments sp_rows {A}.
 Arguments sp_header {A}.
 Arguments sp_hsizes {A}.
 Arguments sp_handles {A}.
+Arguments sp_else {A}.
 
 Section Spec.
 Context {A : Type}.
 Notation spstate := (spstate A).
 
-Definition sp_init : spstate := mkSp [] None [] [].
+Definition sp_init : spstate := mkSp [] None [] [] [].
 
 Definition sp_attach (sp : spstate) (row : option (list A)) : spstate :=
-  mkSp (sp_rows sp ++ [row]) (sp_header sp) (sp_hsizes sp) (sp_handles sp).
+  mkSp (sp_rows sp ++ [row]) (sp_header sp) (sp_hsizes sp) (sp_handles sp) (sp_else sp).
 Definition sp_bind (sp : spstate) r h : spstate :=
-  mkSp (sp_rows sp) (sp_header sp) (sp_hsizes sp) ((r, h) :: sp_handles sp).
+  mkSp (sp_rows sp) (sp_header sp) (sp_hsizes sp) ((r, h) :: sp_handles sp) (sp_else sp).
+
+Definition srow_size (r : option (list A)) : nat := match r with None => 0 | Some xs => length xs end.
+
+(* other.AddRow(row) for the row at index i of this table: one *Row object
+   serves both tables, and it now speaks of the other one - it reports its
+   position THERE, and cells added to it from now on widen THAT table; this
+   table keeps listing it, with its cells, and keeps the width it had. *)
+Definition sp_taken (sp : spstate) (i k : nat) : spstate :=
+  match nth_error (sp_rows sp) i with
+  | Some row =>
+      let frozen := match assoc (S i) (sp_else sp) with Some (_, n) => n | None => srow_size row end in
+      mkSp (sp_rows sp) (sp_header sp) (sp_hsizes sp) (sp_handles sp) ((S i, (k, frozen)) :: sp_else sp)
+  | None => sp
+  end.
 
 Definition sp_add_at (sp : spstate) (i : nat) (x : A) : spstate :=
   match nth_error (sp_rows sp) i with
-  | Some (Some xs) => mkSp (upd (sp_rows sp) i (Some (xs ++ [x]))) (sp_header sp) (sp_hsizes sp) (sp_handles sp)
+  | Some (Some xs) => mkSp (upd (sp_rows sp) i (Some (xs ++ [x]))) (sp_header sp) (sp_hsizes sp) (sp_handles sp) (sp_else sp)
   | _ => sp                                    (* separator, or no such row *)
   end.
 
@@ -62,16 +80,24 @@ Definition sp_step (sp : spstate) (o : op A) : spstate :=
       end
   | AddRowItems xs => sp_attach sp (Some xs)
   | AddSeparator => sp_attach sp None
-  | AddHeaders xs => mkSp (sp_rows sp) (Some xs) (sp_hsizes sp ++ [length xs]) (sp_handles sp)
+  | AddHeaders xs => mkSp (sp_rows sp) (Some xs) (sp_hsizes sp ++ [length xs]) (sp_handles sp) (sp_else sp)
   | MutateAllRowsCopy => sp
+  | OtherAddRow (RIdx i) k => sp_taken sp i k
+  | OtherAddRow (RName r) k =>
+      match assoc r (sp_handles sp) with
+      | Some (SAtt i) => sp_taken sp i k
+      | _ => sp                                  (* not a row of this table (yet) *)
+      end
   end.
 
 Definition spec_run (h : list (op A)) : spstate := fold_left sp_step h sp_init.
 
 (* ---- the histories the property quantifies over (DESIGN section 13.1):
    every op denotes a call a Go program can make - a new row variable is
-   fresh, a named row exists, AllRows()[i] is in range - and a pre-built row is
-   attached at most once (AddRow only on a row that is still detached). *)
+   fresh, a named row exists, AllRows()[i] is in range - a pre-built row is
+   attached at most once (AddRow only on a row that is still detached), and
+   no row of this table is passed to another table's AddRow (a row another
+   table holds may still join this one: OtherAddRow on a detached row). *)
 Definition op_wf (sp : spstate) (o : op A) : bool :=
   match o with
   | NewRow r | NewRowSizedFor r | AppendNewRow r =>
@@ -81,6 +107,9 @@ Definition op_wf (sp : spstate) (o : op A) : bool :=
   | RowAdd (RIdx i) _ => i <? length (sp_rows sp)
   | AddRow r =>
       match assoc r (sp_handles sp) with Some (SDet _) => true | _ => false end
+  | OtherAddRow (RName r) _ =>       (* only a row that is not (yet) in this table may join another one *)
+      match assoc r (sp_handles sp) with Some (SDet _) => true | _ => false end
+  | OtherAddRow (RIdx _) _ => false
   | _ => true
   end.
 
@@ -126,11 +155,24 @@ Definition header_sizes (h : list (op A)) : list nat :=
 (* the rows in attach order, each with the items it holds at the end of h *)
 Definition attach_order (h : list (op A)) : list (option (list A)) := sp_rows (spec_run h).
 
-Definition srow_size (r : option (list A)) : nat := match r with None => 0 | Some xs => length xs end.
-
 (* ---- what the table must show, read off the spec state *)
 Definition e_nrows (sp : spstate) : nat := length (sp_rows sp).
-Definition e_ncols (sp : spstate) : nat := list_max (sp_hsizes sp ++ map srow_size (sp_rows sp)).
+
+(* the size a row counts with: its current size, or the size it had when
+   another table took it *)
+Fixpoint counted (els : list (nat * (nat * nat))) (p : nat) (rows : list (option (list A))) : list nat :=
+  match rows with
+  | [] => []
+  | r :: rest => match assoc p els with Some (_, n) => n | None => srow_size r end :: counted els (S p) rest
+  end.
+Lemma counted_nil p rows : counted [] p rows = map srow_size rows.
+Proof. revert p; induction rows as [|r rows IH]; intros p; cbn [counted map assoc]; [reflexivity | rewrite IH; reflexivity]. Qed.
+
+Definition e_ncols (sp : spstate) : nat := list_max (sp_hsizes sp ++ counted (sp_else sp) 1 (sp_rows sp)).
+
+(* the row number the p-th row reports (and its cells with it) *)
+Definition e_row_num (els : list (nat * (nat * nat))) (p : nat) : Z :=
+  match assoc p els with Some (k, _) => Z.of_nat k | None => Z.of_nat p end.
 
 (* CellAt(r,c): the item, or None for "no such cell" *)
 Local Open Scope Z_scope.
@@ -154,7 +196,7 @@ Definition expected (sp : spstate N) : obs :=
   let w := Nat.max (e_ncols sp) (list_max (map srow_size (sp_rows sp))) in
   mkObs (Z.of_nat (e_nrows sp)) (Z.of_nat (e_ncols sp))
         (option_map (number_cells 0) (sp_header sp))
-        (map (fun p => let i := Z.of_nat (fst p) in
+        (map (fun p => let i := e_row_num (sp_else sp) (fst p) in
                        match snd p with
                        | None => mkORow true true (i, 0%Z) []
                        | Some xs => mkORow false false (i, 0%Z) (number_cells i xs)
@@ -162,7 +204,7 @@ Definition expected (sp : spstate N) : obs :=
              (combine (seq 1 (length (sp_rows sp))) (sp_rows sp)))
         (flat_map (fun r => flat_map (fun c =>
              match e_cell_at sp r c with
-             | Some x => [(r, c, (r, c, x))]
+             | Some x => [(r, c, (e_row_num (sp_else sp) (Z.to_nat r), c, x))]
              | None => []
              end) (zrange (-1) (w + 3))) (zrange (-1) (e_nrows sp + 3)))
         (map (e_column_exists sp) (zrange (-1) (e_ncols sp + 3))).
